@@ -55,6 +55,8 @@ def _track(name, err, tol):
         r = err / tol
         if r > WORST.get(name, 0.0):
             WORST[name] = r
+        if r > 1e-3:
+            CTX.event(f'within-3-decades-of-threshold:{name}')
 
 
 # ------------------------------------------------------------------------------------------ class labels
